@@ -1,6 +1,6 @@
 (* Link between PrcParameterFinder::find (Rice.find_prc) and the abstract search of RiceOpt.v,
    and the arithmetic facts about the finest partition order. *)
-From FV Require Import Generated Model.Base Model.Rice Proofs.SinkArith Proofs.RiceOpt.
+From FV Require Import Generated Model.Base Model.Rice Proofs.SinkArith Proofs.ListAux Proofs.RiceOpt.
 Local Open Scope N_scope.
 
 (* the finest partitions of the folded error signal: 2^order slices of n / 2^order values, the
@@ -108,3 +108,83 @@ Example find_example :
   | _ => False
   end.
 Proof. vm_compute. repeat split; reflexivity. Qed.
+
+(* ---- shape of the partitions and of the finder's answer ---- *)
+
+Lemma concat_pairs_length : forall (k : nat) (l : list (list N)),
+  length l = (2 * k)%nat -> length (concat_pairs l) = k.
+Proof.
+  induction k as [|k IH]; intros l Hl.
+  - destruct l; [reflexivity | discriminate].
+  - destruct l as [|a [|b r]]; try (cbn in Hl; lia).
+    cbn [concat_pairs length]. f_equal. apply IH. cbn [length] in Hl. lia.
+Qed.
+
+Lemma coarsen_length : forall (j a : nat) (l : list (list N)),
+  (j <= a)%nat -> length l = Nat.pow 2 a -> length (coarsen j l) = Nat.pow 2 (a - j).
+Proof.
+  induction j as [|j IH]; intros a l Hj Hl; cbn [coarsen].
+  - rewrite Nat.sub_0_r. assumption.
+  - destruct a as [|a]; [lia|]. cbn [Nat.sub].
+    apply IH; [lia|]. apply concat_pairs_length. rewrite Hl. cbn [Nat.pow]. lia.
+Qed.
+
+Lemma pow2_N_nat o : N.to_nat (2 ^ o) = Nat.pow 2 (N.to_nat o).
+Proof.
+  rewrite <- (N2Nat.id o) at 1. generalize (N.to_nat o) as k. intros k.
+  induction k as [|k IH]; [reflexivity|].
+  rewrite Nat2N.inj_succ, N.pow_succ_r', N2Nat.inj_mul, IH. cbn [Nat.pow]. reflexivity.
+Qed.
+
+Lemma finest_parts_length errs warmup order :
+  finest_partition_order (N.of_nat (length errs)) (N.max MIN_PART warmup) = Ok order ->
+  length (finest_parts errs warmup order) = Nat.pow 2 (N.to_nat order).
+Proof.
+  intros Ho. destruct (finest_order_facts _ _ _ Ho) as (Hm & Hmax & Hdiv & Hmul & Hpart).
+  unfold finest_parts.
+  set (n := N.of_nat (length errs)) in *. set (np := 2 ^ order) in *. set (part := n / np) in *.
+  assert (Hnp : np <> 0) by apply pow2_nz.
+  assert (Hn : n = part * np).
+  { pose proof (N.div_mod n np Hnp) as Hd. rewrite Hdiv, N.add_0_r in Hd. unfold part. lia. }
+  assert (Hpart0 : 0 < part).
+  { assert (0 < N.max MIN_PART warmup) by lia. lia. }
+  assert (Hlen : length (firstn (N.to_nat (part * np)) (map zigzag errs)) = (N.to_nat np * N.to_nat part)%nat).
+  { rewrite firstn_length, map_length. unfold n in Hn. lia. }
+  destruct (chunks_exact (N.to_nat part) (N.to_nat np) _ ltac:(lia) Hlen) as [H1 H2].
+  destruct (chunks (N.to_nat part) (firstn (N.to_nat (part * np)) (map zigzag errs))) as [|p0 r] eqn:Ec.
+  - cbn [length] in H1. unfold np in H1. rewrite pow2_N_nat in H1. exact H1.
+  - cbn [length] in *. unfold np in H1. rewrite pow2_N_nat in H1. exact H1.
+Qed.
+
+(* the finder's answer has 2^order' parameters, order' <= finest, the block splits evenly, the
+   warm-up fits in one partition, and every parameter is within the configured maximum *)
+Theorem find_prc_shape errs warmup maxp pr :
+  find_prc errs warmup maxp = Ok pr ->
+  let n := N.of_nat (length errs) in
+  exists o' : nat,
+    prc_order pr = N.of_nat o' /\ length (prc_ps pr) = Nat.pow 2 o' /\
+    N.of_nat o' <= MAX_PORDER /\
+    n mod 2 ^ N.of_nat o' = 0 /\ N.max MIN_PART warmup <= n / 2 ^ N.of_nat o' /\
+    Forall (fun p => p <= maxp /\ p <= 15) (prc_ps pr).
+Proof.
+  intros E. cbv zeta.
+  destruct (find_prc_optimal _ _ _ _ E) as (order & Ho & j & Hj & Hord & Hc & _).
+  destruct (finest_order_facts _ _ _ Ho) as (Hm & Hmax & Hdiv & Hmul & Hpart).
+  exists (N.to_nat order - j)%nat.
+  destruct Hc as [Hc1 Hc2].
+  rewrite (coarsen_length j (N.to_nat order) _ Hj (finest_parts_length _ _ _ Ho)) in Hc1.
+  set (n := N.of_nat (length errs)) in *.
+  set (o' := (N.to_nat order - j)%nat) in *.
+  assert (Hle : N.of_nat o' <= order) by lia.
+  assert (Hsplit : 2 ^ order = 2 ^ (order - N.of_nat o') * 2 ^ N.of_nat o') by (apply pow2_split; assumption).
+  repeat split; try assumption; try lia.
+  - (* divisibility by the coarser power *)
+    pose proof (N.div_mod n (2 ^ order) (pow2_nz _)) as Hd. rewrite Hdiv, N.add_0_r, Hsplit in Hd.
+    set (K := n / 2 ^ order) in *.
+    replace n with ((2 ^ (order - N.of_nat o') * K) * 2 ^ N.of_nat o').
+    + apply N.mod_mul, pow2_nz.
+    + rewrite Hd. unfold K. rewrite Hsplit. ring.
+  - (* the coarser partition is at least as long as the finest one *)
+    eapply N.le_trans; [exact Hpart|].
+    apply N.div_le_compat_l. split; [apply pow2_pos | apply pow2_le; assumption].
+Qed.
